@@ -5,3 +5,4 @@ CHECK_DEADLOCK FALSE
 CONSTANTS
   Keys = {1, 2, 3, 4}
   MaxOps = 16
+  MaxInst = 0
